@@ -1225,9 +1225,7 @@ func extractInnerJSONObj(outerJSON, path string) []string {
 	// we convert path into a format that is easier to work with
 	// e.g. "field1.field2.array{0}{1}.field3" -> "field1.field2.array.{0}.{1}.field3" -> ["field1", "field2", "array", "{0}", "{1}", "field3"]
 	newPath := strings.ReplaceAll(path, "{", ".{")
-	if newPath[0] == '.' {
-		newPath = newPath[1:]
-	}
+	newPath = strings.TrimPrefix(newPath, ".")
 	parts := strings.Split(newPath, ".")
 
 	return extractInnerJSONObjUsingParts(outerObj, parts)
@@ -1333,9 +1331,7 @@ func extractInnerXMLObj(inputStr, path string) []string {
 	// we convert path into a format that is easier to work with
 	// e.g. "field1.field2.array{0}.field3" -> "field1.field2.array.{0}.field3" -> ["field1", "field2", "array", "{0}", "field3"]
 	newPath := strings.ReplaceAll(path, "{", ".{")
-	if newPath[0] == '.' {
-		newPath = newPath[1:]
-	}
+	newPath = strings.TrimPrefix(newPath, ".")
 	parts := strings.Split(newPath, ".")
 
 	return extractInnerXMLObjUsingParts(&doc.Element, parts)
